@@ -31,5 +31,28 @@ namespace verif_c04 {
         ex::async_rw_mutex<int> mi(0);
         run(mi.read());
         run(mi.readwrite());
+        // assignment over a sender that has not been started (C04.R9)
+        auto r1 = mi.read();
+        auto r2 = mi.read();
+        r1 = std::move(r2);
+        auto r3 = mi.read();
+        r1 = r3;
+        auto w1 = mi.readwrite();
+        auto w2 = mi.readwrite();
+        w1 = std::move(w2);
+        run(std::move(r1));
+        run(std::move(r3));
+        run(std::move(w1));
+        auto v1 = m.read();
+        auto v2 = m.read();
+        v1 = std::move(v2);
+        auto v3 = m.read();
+        v1 = v3;
+        auto x1 = m.readwrite();
+        auto x2 = m.readwrite();
+        x1 = std::move(x2);
+        run(std::move(v1));
+        run(std::move(v3));
+        run(std::move(x1));
     }
 }    // namespace verif_c04
